@@ -36,7 +36,7 @@ ASSUMPTIONS = [
 ]
 TIERS = {
     "quick": {"shards": 16, "cases": 60, "timeout": 900},
-    "thorough": {"shards": 16, "cases": 1200, "timeout": 7200},
+    "thorough": {"shards": 16, "cases": 1800, "timeout": 7200},
 }
 FLOORS = {
     "quick": {"programs": 250, "streams_compared": 700, "steps_compared": 15000, "distinct_nontrivial": 80},
